@@ -448,18 +448,40 @@ fn run_prog<C: Col>(toks: &[&str]) -> Vec<String> {
     for tok in toks {
         let p: Vec<&str> = tok.split(':').collect();
         let mut edited = true;
+        let is_edit = matches!(p[0], "s" | "i" | "r" | "p" | "t" | "c");
+        if is_edit {
+            // documented precondition of splice/insert: index + del <= len (the call panics otherwise)
+            let in_bounds = match p[0] {
+                "s" => p[1].parse::<usize>().unwrap() + p[2].parse::<usize>().unwrap() <= vec.len(),
+                "i" => p[1].parse::<usize>().unwrap() <= vec.len(),
+                _ => true,
+            };
+            let r = catch_unwind(AssertUnwindSafe(|| match p[0] {
+                "s" => c.splice(p[1].parse().unwrap(), p[2].parse().unwrap(), parse_list(p[3])),
+                "i" => c.insert(p[1].parse().unwrap(), C::V::parse(p[2])),
+                "r" => c.remove(p[1].parse().unwrap()),
+                "p" => c.push(C::V::parse(p[1])),
+                "t" => c.truncate(p[1].parse().unwrap()),
+                _ => c.clear(),
+            }));
+            if let Err(e) = r {
+                // the column is in an unknown state: the line ends here, like an uncaught panic
+                let mut res = vec!["panic".to_string()];
+                if in_bounds { res.push(format!("! C34 edit {} panicked on an in-bounds call: {}", tok, panic_msg(e))); }
+                return res;
+            }
+        }
         match p[0] {
             "s" => {
                 let (i, del): (usize, usize) = (p[1].parse().unwrap(), p[2].parse().unwrap());
                 let vals: Vec<C::V> = parse_list(p[3]);
-                c.splice(i, del, vals.clone());
                 vec.splice(i..i + del, vals);
             }
-            "i" => { let i: usize = p[1].parse().unwrap(); let v = C::V::parse(p[2]); c.insert(i, v.clone()); vec.insert(i, v); }
-            "r" => { let i: usize = p[1].parse().unwrap(); c.remove(i); if i < vec.len() { vec.remove(i); } }
-            "p" => { let v = C::V::parse(p[1]); c.push(v.clone()); vec.push(v); }
-            "t" => { let n: usize = p[1].parse().unwrap(); c.truncate(n); vec.truncate(n); }
-            "c" => { c.clear(); vec.clear(); }
+            "i" => { let i: usize = p[1].parse().unwrap(); let v = C::V::parse(p[2]); vec.insert(i, v); }
+            "r" => { let i: usize = p[1].parse().unwrap(); if i < vec.len() { vec.remove(i); } }
+            "p" => { let v = C::V::parse(p[1]); vec.push(v); }
+            "t" => { let n: usize = p[1].parse().unwrap(); vec.truncate(n); }
+            "c" => { vec.clear(); }
             _ => {
                 edited = false;
                 let res = match p[0] {
@@ -641,7 +663,7 @@ fn gen_value(r: &mut Rng, ct: &str, vt: &str, mode: u64, seq: u64) -> String {
                 (_, "u32") => (0, u32::MAX as i128),
                 (_, "i32") => (i32::MIN as i128, i32::MAX as i128),
                 ("delta", "u64") | ("delta", "usize") => (0, i64::MAX as i128),
-                ("delta", "i64") => (-(1i128 << 62), (1i128 << 62) - 1),
+                ("delta", "i64") => (-(1i128 << 61), (1i128 << 61) - 1),   // see finding: SlabScan overflows on the full 2^63-wide window
                 (_, "u64") | (_, "usize") => (0, u64::MAX as i128),
                 (_, "i64") => (i64::MIN as i128, i64::MAX as i128),
                 _ => (0, 100),
